@@ -183,5 +183,40 @@ theorem indirect_error (hk : 0 < I.k) (ha : 0 < I.a) (hβ : betaTolerance < β) 
   obtain ⟨c0, c1⟩ := hcut
   constructor <;> linarith [b0.1, b0.2, b1.1, b1.2]
 
+
+/-- the deep branch is NOT exact: with `β > 0` and the ray existing on `[z0,z1]` the uniform-index distance
+`β Δz/√α` is strictly smaller than the true `∫ tan θ` (because `n(z) < n0`) -/
+theorem deep_dist_lt_true (hk : 0 < I.k) (ha : 0 < I.a) (hβ : 0 < β) {z0 z1 : ℝ} (h01 : z0 < z1)
+    (h1 : β < nzT I z1) :
+    distInt I z1 β true - distInt I z0 β true
+      < ∫ z in z0..z1, Real.tan (Real.arcsin (β / nzT I z)) := by
+  rw [dist_deep_eq_integral I β z0 z1]
+  have gpos : ∀ z, z ≤ z1 → 0 < nzT I z ∧ 0 < gU I β z := by
+    intro z hz
+    have f := seg_facts I β hk ha hβ h1.le hz
+    refine ⟨f.1, ?_⟩
+    rcases eq_or_lt_of_le hz with rfl | hlt
+    · unfold gU; nlinarith
+    · exact f.2.2 hlt
+  have hval : ∀ z ∈ Icc z0 z1, Real.tan (Real.arcsin (β / nzT I z)) = β / Real.sqrt (gU I β z) := by
+    intro z hz
+    have g := gpos z hz.2
+    rw [tan_arcsin_div _ β g.1 (by have := g.2; unfold gU at this; linarith)]; rfl
+  have hgc : ContinuousOn (fun z => Real.tan (Real.arcsin (β / nzT I z))) (Icc z0 z1) := by
+    have : ContinuousOn (fun z => β / Real.sqrt (gU I β z)) (Icc z0 z1) := by
+      apply ContinuousOn.div continuousOn_const
+        (Real.continuous_sqrt.comp (continuous_gU I β)).continuousOn
+      intro z hz
+      exact ne_of_gt (Real.sqrt_pos.mpr (gpos z hz.2).2)
+    exact this.congr hval
+  have hpt : ∀ z ∈ Icc z0 z1, β / Real.sqrt (alphaT I β) < Real.tan (Real.arcsin (β / nzT I z)) := by
+    intro z hz
+    rw [hval z hz]
+    have g := gpos z hz.2
+    have hlt := alpha_gt_gamma I β z hk g.1
+    exact div_lt_div_of_pos_left hβ (Real.sqrt_pos.mpr g.2) (Real.sqrt_lt_sqrt g.2.le hlt)
+  exact intervalIntegral.integral_lt_integral_of_continuousOn_of_le_of_exists_lt h01 continuousOn_const hgc
+    (fun x hx => (hpt x ⟨hx.1.le, hx.2⟩).le) ⟨z0, left_mem_Icc.mpr h01.le, hpt z0 (left_mem_Icc.mpr h01.le)⟩
+
 end cut
 end RayProofs
